@@ -1019,11 +1019,13 @@ theorem clustal_outcome_bytes (o : POpts) (bs : List Byte) : Good (Clustal.parse
 example : Clustal.parseBytes true {} [99, 108, 117, 0xC5, 0xBF, 116, 97, 108, 10, 10, 97, 32, 65, 67, 10, 32, 32, 42, 10] =
     .ok ⟨1, 2, [([97], [65, 67])]⟩ := by decide
 
-/-- **Stockholm (patched) on the raw input**: likewise -/
-theorem stockholm_outcome_bytes (o : POpts) (bs : List Byte) : GoodOpt (Stockholm.parseBytes true true o bs) := by
-  unfold Stockholm.parseBytes; split
-  · trivial
-  · exact stockholm_outcome_fixed o (Utf8.norm bs)
+/-- **Stockholm (patched) on the raw input**: likewise, ALL byte strings without exception -/
+theorem stockholm_outcome_bytes (o : POpts) (bs : List Byte) : Good (Stockholm.parseBytes true true o bs) :=
+  stockholm_outcome_fixed o (Utf8.norm bs)
+
+/-- the header is recognised through the fold rune: `# ſtockholm 1.0\na AC\n//\n` (`ſ` = `C5 BF`) -/
+example : Stockholm.parseBytes true true {} [35, 32, 0xC5, 0xBF, 116, 111, 99, 107, 104, 111, 108, 109, 32, 49, 46, 48, 10, 97, 32, 65, 67, 10, 47, 47, 10] =
+    .ok ⟨1, 2, [([97], [65, 67])]⟩ := by decide
 
 /-- **Nexus (comment and empty-row repairs) on the raw input**: likewise -/
 theorem nexus_outcome_bytes (f : Nexus.Facts) (hc : f.commentStopsAtEof = true) (he : f.rejectsEmptyRows = true)
@@ -1035,19 +1037,19 @@ theorem nexus_outcome_bytes (f : Nexus.Facts) (hc : f.commentStopsAtEof = true) 
 /-- the claim is made for every ASCII input, and there the raw-input models are the ASCII models -/
 theorem parseBytes_ascii_claim (bs : List Byte) (h : allAscii bs = true) :
     (∀ c o, Clustal.parseBytes c o bs = Clustal.parse c o bs) ∧
-    (∀ m e o, Stockholm.parseBytes m e o bs = some (Stockholm.parse m e o bs)) ∧
+    (∀ m e o, Stockholm.parseBytes m e o bs = Stockholm.parse m e o bs) ∧
     (∀ f o, Nexus.parseBytes f o bs = some (Nexus.parse f o bs)) ∧
     (∀ f len, Partition.parseBytes f len bs = Partition.parse f len bs) := by
   have hn := Gv.Proofs.Utf8Norm.norm_of_ascii bs h
   have hf : Utf8.hasFoldRune bs = false := Gv.Proofs.Utf8Norm.hasFoldRune_ascii bs h
   refine ⟨?_, ?_, ?_, ?_⟩
   · intro c o; simp [Clustal.parseBytes, hn]
-  · intro m e o; simp [Stockholm.parseBytes, hf, hn]
+  · intro m e o; simp [Stockholm.parseBytes, hn]
   · intro f o; simp [Nexus.parseBytes, hf, hn]
   · intro f len; simp [Partition.parseBytes, hn]
 
-/-- the claim is made beyond ASCII: `# STOCKHOLM 1.0\na\xff A€\n//\n` -/
-example : (Stockholm.parseBytes true true {} [35, 32, 83, 84, 79, 67, 75, 72, 79, 76, 77, 32, 49, 46, 48, 10, 97, 0xFF, 32, 65, 0xE2, 0x82, 0xAC, 10, 47, 47, 10]).isSome = true := by
+/-- the claim is made beyond ASCII: `#NEXUS\n\xff€\n` -/
+example : (Nexus.parseBytes ⟨true, true, true, true, true, true, true⟩ {} [35, 78, 69, 88, 85, 83, 10, 0xFF, 0xE2, 0x82, 0xAC, 10]).isSome = true := by
   decide
 
 end Gv.Props.C03
